@@ -47,7 +47,7 @@ def mandatory_bins(tier):
     b = ["len_mod16_%d" % i for i in range(16)] + ["trailing_zeros_%d" % z for z in range(18)]
     b += ["all_zero_content", "via_set_config", "via_direct_construction", "framing_bf3", "framing_bec2", "needle_scan", "needle_session_key", "needle_security_code",
           "needle_customer_key", "needle_plaintext_block", "key_ends_00", "default_key", "cipher_unregistered", "cipher_fails_at_call", "cipher_fails_at_first_call",
-          "cipher_fails_at_last_call", "fault_stream", "fault_path", "read_back_with_key", "long_content", "content_longer_than_1024", "rewrite_after_content_change", "rewrite_after_in_place_content_change", "set_config_over_preexisting_plain_configuration", "target_is_a_file_name", "read_back_without_mac_check", "rewrite_of_a_read_back_object", "rewrite_under_another_key", "marked_for_encryption_after_construction", "unusable_key_given_explicitly", "several_encrypted_components", "encrypted_component_not_last", "flag_set_with_other_enc_tag"]
+          "cipher_fails_at_last_call", "fault_stream", "fault_path", "read_back_with_key", "long_content", "content_longer_than_1024", "rewrite_after_content_change", "rewrite_after_in_place_content_change", "set_config_over_preexisting_plain_configuration", "target_is_a_file_name", "read_back_without_mac_check", "rewrite_of_a_read_back_object", "rewrite_under_another_key", "marked_for_encryption_after_construction", "unusable_key_given_explicitly", "several_encrypted_components", "encrypted_component_not_last", "flag_set_with_other_enc_tag", "encryption_flag_passed_positionally", "content_given_as_bytearray"]
     return b
 
 
@@ -124,6 +124,10 @@ def check_case(ns, ctx, content, declared, key, framing, via, specs, conf, rp):
             comp_.encrypt_by_session_key = True
             f.components.append(comp_)
             ctx.bin("marked_for_encryption_after_construction")
+        elif (len(content) + key[3]) % 4 == 3:
+            # the flag passed POSITIONALLY (4th argument of the constructor, as the signature allows)
+            f.components.append(BF.Bf3Component(dict(desc), content, declared, True))
+            ctx.bin("encryption_flag_passed_positionally")
         else:
             f.components.append(BF.Bf3Component(dict(desc), content, declared, encrypt_by_session_key=True))
         ctx.bin("via_direct_construction")
@@ -409,6 +413,37 @@ def check_flag_wins(ns, ctx, rng, key):
             ctx.violation("written_file_not_parsable_by_model:" + e.rule, {"desc": rp["desc"]}, rp)
 
 
+def check_bytearray_content(ns, ctx, rng, key):
+    """content of an encrypted component handed over as a bytearray (block-aligned and not): the writer may refuse it; if it
+    writes, the stored payload is the CBC ciphertext of the content and the caller's buffer is left as it was"""
+    BF = ns.bf3file
+    for ln in (16, 32, 20, 48):
+        content = rng.randbytes(ln)
+        buf_ = bytearray(content)
+        rp = {"kind": "bytearray", "key": key.hex(), "content": content.hex()}
+        ctx.ev()
+        ctx.bin("content_given_as_bytearray")
+        ctx.distinct("bytearray", key, content)
+        f = BF.Bf3File({}, [BF.Bf3Component({0xC3: b"\x03", 0xC2: b"\x02"}, buf_, ln, encrypt_by_session_key=True)])
+        try:
+            binary = f.to_binary(0, key)
+        except Exception as e:
+            ctx.exc(e)
+            if bytes(buf_) != content:
+                ctx.violation("writer_modifies_the_callers_buffer", {"len": ln, "although": "it refused the component"}, rp)
+            continue
+        ctx.mon("write_file")
+        try:
+            ents = L.parse_body(binary, 0, key)
+            ctx.mon("stored_payload_vs_openssl")
+            if ents[0].payload != ossl.aes_cbc(key, ossl.ZERO_IV, ossl.pad0(content), True):
+                ctx.violation("stored_payload_is_not_cbc_ciphertext_of_padded_content:content_given_as_bytearray", {"len": ln}, rp)
+        except L.LayoutError as e:
+            ctx.violation("written_file_not_parsable_by_model:" + e.rule, {"content": "bytearray", "len": ln}, rp)
+        if bytes(buf_) != content:
+            ctx.violation("writer_modifies_the_callers_buffer", {"len": ln}, rp)
+
+
 class Fault(Exception):
     pass
 
@@ -605,13 +640,17 @@ def run_shard(spec, ctx):
             check_multi(ns, ctx, rng, key, framing, specs)
         if idx % 16 == 3:
             check_flag_wins(ns, ctx, rng, key)
+        if idx % 16 == 7:
+            check_bytearray_content(ns, ctx, rng, key)
         if j == 0:
             ctx.sample({k: rp[k] for k in ("content", "declared", "key", "framing", "via")})
 
 
 def replay(rec, ctx):
     ns = load()
-    if rec["kind"] == "flag":
+    if rec["kind"] == "bytearray":
+        check_bytearray_content(ns, ctx, ctx.rng, bytes.fromhex(rec["key"]))
+    elif rec["kind"] == "flag":
         check_flag_wins(ns, ctx, ctx.rng, bytes.fromhex(rec["key"]))
     elif rec["kind"] == "multi":
         check_multi(ns, ctx, ctx.rng, bytes.fromhex(rec["key"]), rec["framing"], GB.spec_from_json(rec["specs"]) if rec.get("specs") else None)
